@@ -13,9 +13,12 @@ import (
 
 	discovery "github.com/IBM/TSS/disc"
 	"github.com/IBM/TSS/mpc/bls"
+	"github.com/IBM/TSS/mpc/ps"
 	"github.com/IBM/TSS/threshold"
 	tss "github.com/IBM/TSS/types"
+	math "github.com/IBM/mathlib"
 	"verif/backend/blsb"
+	"verif/backend/psb"
 	"verif/backend/s"
 	"verif/explore"
 	"verif/harness"
@@ -412,6 +415,8 @@ func runSession(c *harness.C, mode, backend string, ids []uint16, shift uint16) 
 		switch backend {
 		case "bls":
 			st.KGF, st.SF = blsb.KeyGenFactory, blsb.SignerFactory
+		case "ps":
+			st.KGF, st.SF = psb.KeyGenFactory(1), psb.SignerFactory(1)
 		case "S":
 			po := func(node uint16) uint16 { return mem[node] }
 			st.KGF = func(id uint16) tss.KeyGenerator { return s.New(id, po, lg) }
@@ -533,12 +538,83 @@ func sessionOracle(c *harness.C, mode, backend string, ids []uint16, shift uint1
 			return
 		}
 	}
+	if backend == "ps" {
+		// a restarted node: fresh instance, Init, SetShareData; public material identical on all
+		// nodes, and blind / sign / unblind / prove / verify works with these identifiers
+		var tpk0 []byte
+		signers := map[uint16]*ps.TPS{}
+		for i, id := range ids {
+			sg := &ps.TPS{Logger: world.NopLogger{}, Party: id, Curve: math.Curves[1], MessageLength: 1}
+			sg.Init(ids, len(ids), nil)
+			if err := sg.SetShareData(o.shares[id]); err != nil {
+				c.Violation("stored-data-roundtrip", "c13-ps-stored-data-unusable:"+cls, what+": "+err.Error(), rp)
+				return
+			}
+			var tpk []byte
+			var err error
+			func() {
+				defer func() {
+					if r := recover(); r != nil {
+						err = fmt.Errorf("panic: %v", r)
+					}
+				}()
+				tpk, err = sg.ThresholdPK()
+			}()
+			if err != nil {
+				c.Violation("public-params", "c13-ps-pk-error:"+cls, what+": "+err.Error(), rp)
+				return
+			}
+			if i == 0 {
+				tpk0 = tpk
+			} else if !bytes.Equal(tpk, tpk0) {
+				c.Violation("public-params", "c13-ps-pk-differs:"+cls, what+": public material differs after reload", rp)
+				return
+			}
+			signers[id] = sg
+		}
+		if err := psRoundTrip(tpk0, ids, signers); err != nil {
+			c.Violation("public-params", "c13-ps-proof:"+cls, what+": "+err.Error(), rp)
+			return
+		}
+	}
 	if ref != nil {
 		got := rename(o.trace, ids)
 		if strings.Join(got, ";") != strings.Join(ref, ";") {
 			c.Violation("differential", fmt.Sprintf("c13-session-trace-differs:%s/%s/%s", mode, backend, cls), what+": class trace differs from the session with identifiers 1..n", rp)
 		}
 	}
+}
+
+func psRoundTrip(tpk []byte, ids []uint16, signers map[uint16]*ps.TPS) (err error) {
+	defer func() {
+		if r := recover(); r != nil {
+			err = fmt.Errorf("panic: %v", r)
+		}
+	}()
+	var pr ps.Prover
+	pr.Logger = world.NopLogger{}
+	if err := pr.Init(math.Curves[1], 1, tpk, ids); err != nil {
+		return err
+	}
+	req, secret := pr.Blind([][]byte{[]byte("m")})
+	var ws []ps.SignatureWitness
+	for _, id := range ids {
+		sig, err := signers[id].Sign(context.Background(), req.Bytes())
+		if err != nil {
+			return fmt.Errorf("signer %d: %v", id, err)
+		}
+		w, err := pr.UnBlind(id, sig, &secret)
+		if err != nil {
+			return fmt.Errorf("unblind %d: %v", id, err)
+		}
+		ws = append(ws, w)
+	}
+	pok := pr.ProveKnowledgeOfSignature(&secret, ids, ws)
+	var v ps.Verifier
+	if err := v.Init(math.Curves[1], 1, tpk); err != nil {
+		return err
+	}
+	return v.Verify(pok.Bytes())
 }
 
 func sessionCase(mode, backend string, shift uint16, name string, sets [][]uint16) harness.Case {
@@ -631,6 +707,16 @@ func gen(c *harness.C) []harness.Case {
 					cases = append(cases, sessionCase(mode, be, shift, fmt.Sprintf("triples%d", i), ch))
 				}
 			}
+		}
+	}
+	// PS sessions: identifier sets with entries on both sides of the byte boundary and at the ends
+	psSets := [][]uint16{{1, 2, 3}, {0, 255, 256}, {255, 256, 40000}, {2, 3, 65535}, {257, 32768, 65534}}
+	if c.Thorough() {
+		psSets = append(psSets, triples(true)...)
+	}
+	for _, mode := range []string{"loud", "silent"} {
+		for i, ch := range chunk(psSets, 2) {
+			cases = append(cases, sessionCase(mode, "ps", 0, fmt.Sprintf("ps%d", i), ch))
 		}
 	}
 	return cases
